@@ -657,6 +657,12 @@ func (env *SpecEnv) evalCall(n *SNode) Val {
 		i := env.eval(n.Args[1])
 		v := env.eval(n.Args[2])
 		return vRaw(sStore(a.S, i.S, numVal(v)), a.Sort)
+	case "bit":
+		st.fc.V.bitPrelude()
+		return vInt(sApp("g_bit", env.eval(n.Args[0]).S, env.eval(n.Args[1]).S), nil)
+	case "pc64":
+		st.fc.V.bitPrelude()
+		return vInt(sApp("g_pc64", env.eval(n.Args[0]).S), nil)
 	case "ispow2":
 		st.fc.V.ispow2Prelude()
 		return vBool(sApp("g_ispow2", env.eval(n.Args[0]).S))
@@ -704,6 +710,25 @@ func (env *SpecEnv) evalCall(n *SNode) Val {
 		}
 		st.fc.V.addPrelude("u8count", "(define-fun-rec g_u8count ((c (Array Int Int)) (p Int) (e Int)) Int (ite (>= p e) 0 (+ 1 (g_u8count c (+ p (g_utf8_width c p e)) e))))")
 		return vInt(sApp("g_u8count", c, p, e), nil)
+	case "rowof", "offof":
+		sv := env.eval(n.Args[0])
+		if sv.K != KSlice {
+			env.fail("%s needs a slice", n.Text)
+		}
+		if n.Text == "offof" {
+			return vInt(sv.off(), intType)
+		}
+		et := sliceElemType(sv.T)
+		cs := flatComps(et)
+		if len(cs) != 1 {
+			env.fail("rowof needs scalar elements")
+		}
+		heap := env.heapMap()
+		if sv.Heap != nil {
+			heap = sv.Heap
+		}
+		h := st.heapIn(heap, elemHeapName(et, cs[0]), elemSort(cs[0]))
+		return vRaw(sSel(h, sv.arr()), "(Array Int "+cs[0].Sort+")")
 	case "content", "sbeg", "send":
 		sv := env.eval(n.Args[0])
 		if sv.K != KString {
